@@ -83,10 +83,19 @@ ChangeDecode(x) ==
 PageCases == [k : {"page"}, size : {"exact", "short", "long"}, start : {0, 4, 3003}, bytes : {0, 1, 3003}, count : {0, 1, 3003}, raw : {TRUE, FALSE}]
 PageDecode(p) == IF p.size = "short" THEN "err_len" ELSE "ok"
 
-Cases == SlotCases \cup HeaderCases \cup ChangeCases \cup PageCases
+(***************************************************************************)
+(* Encode side of the slot: a region created under a name of a given byte  *)
+(* length made of 1/2/3/4-byte characters must round-trip through write,   *)
+(* flush and reopen when the name fits (<= 1024 bytes), and be refused     *)
+(* otherwise (never accepted and then lost)                                *)
+(***************************************************************************)
+NameCases == [k : {"name"}, bytes : {1, 2, 1023, 1024, 1025, 1026, 1200, 2048, 4064, 4068, 4096}, charw : {1, 2, 3, 4}]
+NameOutcome(x) == IF x.bytes <= 1024 THEN "ok" ELSE "refused"
+
+Cases == SlotCases \cup HeaderCases \cup ChangeCases \cup PageCases \cup NameCases
 
 Decode(x) == CASE x.k = "slot" -> SlotDecode(x) [] x.k = "header" -> HeaderDecode(x)
-               [] x.k = "change" -> ChangeDecode(x) [] x.k = "page" -> PageDecode(x)
+               [] x.k = "change" -> ChangeDecode(x) [] x.k = "page" -> PageDecode(x) [] x.k = "name" -> NameOutcome(x)
 
 Init == c \in Cases
 Next == UNCHANGED c
